@@ -66,6 +66,16 @@ inline void lsm_arena_init(size_t bytes) {
   at.reset();
 }
 inline void lsm_arena_page_align() { AllocTrack& at = alloc_track(); at.arena_used = (at.arena_used + 4095) & ~(size_t)4095; }
+// Everything the library allocated so far (modules, tables built by the harness) is sealed read-only for good:
+// such objects are immutable after creation, so any later write traps, and their content need not be re-hashed.
+struct RootSeal { size_t bytes = 0; int nblocks = 0; };
+inline RootSeal& root_seal() { static RootSeal r; return r; }
+inline void lsm_seal_root() {
+  LibImage& I = lib_image(); AllocTrack& at = alloc_track();
+  lsm_arena_page_align();
+  root_seal().bytes = at.arena_used; root_seal().nblocks = at.n;
+  if (at.arena_used && mprotect(I.arena, at.arena_used, PROT_READ)) machinery_error("mprotect(root) failed");
+}
 
 // ---- write protection with a trap ----------------------------------------------------------------
 struct TrapInfo { volatile int armed; volatile uintptr_t addr; sigjmp_buf jb; };
@@ -87,8 +97,8 @@ inline void lsm_protect(bool on) {
   AllocTrack& at = alloc_track();
   int prot = on ? PROT_READ : (PROT_READ | PROT_WRITE);
   if (I.stat_len) { uintptr_t lo = (uintptr_t)I.stat & ~(uintptr_t)4095; size_t len = ((uintptr_t)I.stat + I.stat_len - lo + 4095) & ~(size_t)4095; if (mprotect((void*)lo, len, prot)) machinery_error("mprotect(static) failed"); }
-  size_t used = (at.arena_used + 4095) & ~(size_t)4095;
-  if (used && mprotect(I.arena, used, prot)) machinery_error("mprotect(arena) failed");
+  size_t used = (at.arena_used + 4095) & ~(size_t)4095, root = root_seal().bytes;
+  if (used > root && mprotect(I.arena + root, used - root, prot)) machinery_error("mprotect(arena) failed");
 }
 // describes where a trapped address lies
 inline std::string lsm_where(uintptr_t a) {
@@ -137,7 +147,7 @@ inline uint64_t lsm_canon_hash() {
   for (size_t k = 0; k < order.size(); ++k) { int b = order[k]; h = fnv(&sep, 8, h); uint64_t sz = at.rec[b].size; h = fnv(&sz, 8, h); scan((const uint8_t*)at.rec[b].p, at.rec[b].size); }
   // live blocks not referenced from the library's own state (caller-owned modules / tables): by content
   std::vector<uint64_t> rest;
-  for (int i = 0; i < nb; ++i) if (at.rec[i].live && id[i] < 0) {
+  for (int i = root_seal().nblocks; i < nb; ++i) if (at.rec[i].live && id[i] < 0) {
     uint64_t save = h; h = 0x1234567ull; uint64_t sz = at.rec[i].size; h = fnv(&sz, 8, h);
     size_t before = order.size();
     scan((const uint8_t*)at.rec[i].p, at.rec[i].size);
